@@ -7,6 +7,7 @@
 
 mod capture;
 mod run;
+mod syntax;
 
 use std::io::{BufRead, Write};
 
@@ -51,6 +52,9 @@ fn main() {
         }
         let result = match cmd {
             "run" => run::run_job(&job),
+            "compile" => syntax::compile_job(&job),
+            "parse" => syntax::parse_job(&job),
+            "format" => syntax::format_job(&job),
             other => {
                 eprintln!("kv: unknown command {other}");
                 std::process::exit(2);
